@@ -266,7 +266,9 @@ class CSSPageRule(cssrule.CSSRuleRules):
                 # merge if margin set more than once
                 for r in cssRules:
                     if r.margin == m.margin:
-                        for p in m.style:
+                        # (all declarations, also overridden ones of a
+                        # name stated twice: iterating the style would skip them)
+                        for p in m.style.getProperties(all=True):
                             r.style.setProperty(p, replace=False)
                         break
                 else:
